@@ -253,6 +253,7 @@ def run_job(job):
     if post and lian is not None:
         import importlib
         try:
+            job["console_text"] = console.getvalue()
             res["post"] = importlib.import_module(post).collect(lian, job)
         except Exception as e:  # noqa
             res["post_error"] = traceback.format_exc()[-3000:]
